@@ -3,6 +3,7 @@
 package schist
 
 import (
+	"os"
 	"encoding/json"
 	"fmt"
 	"reflect"
@@ -220,6 +221,7 @@ func (h *Hist) Submit(c *Call, monitors []Monitor) *TxnObs {
 	rec.Outcome = o.Outcome
 	h.Log = append(h.Log, rec)
 	fmt.Printf("RES %s %d %s %s\n", h.ID, rec.Idx, rec.Outcome, trunc(rec.Output, 400))
+	debugOps(h, o)
 	for _, m := range monitors {
 		m.Fn(h, o)
 	}
@@ -427,3 +429,16 @@ func (h *Hist) ClientLeaves(s snap.Snapshot) map[string]snap.ClientLeaf {
 
 // Coin is a shorthand.
 type Coin = currency.Coin
+
+// debugOps prints the hook's op log of a txn when VERIF_DEBUG_KEY is a substring of a touched key.
+func debugOps(h *Hist, o *TxnObs) {
+	k := os.Getenv("VERIF_DEBUG_KEY")
+	if k == "" {
+		return
+	}
+	for _, op := range o.Ops {
+		if strings.Contains(op.Key, k) {
+			fmt.Printf("DBGOP %s i=%d %s %s key=%s type=%s len=%d\n", h.ID, o.Idx, o.Call.Name, op.Kind, op.Key, op.Type, len(op.Bytes))
+		}
+	}
+}
